@@ -62,6 +62,25 @@ def run(sc):
         obs['expected'] = exp
         if got != exp:
             viol.append(f'results differ from direct calls: got {got!r}, expected {exp!r}')
+        # pristine defaults: a target that mutates its (mutable) default arguments in place must not be visible to later calls
+        w2 = make(kind, T.mutating, [[]], {'acc': []}, addr)
+        try:
+            outs = []
+            for x in (1, 2, 3):
+                w2.enqueue(x=x)
+            for _ in range(3):
+                try:
+                    outs.append(w2.next_result(timeout=5) if kind != 'process' else w2.next_result())
+                except queue.Empty:
+                    break
+            obs['mutating'] = outs
+            if outs != [([1], [1]), ([2], [2]), ([3], [3])]:
+                viol.append(f'calls do not see pristine defaults: a target appending x to its default list/kwarg returned {outs!r}')
+        finally:
+            try:
+                w2.terminate(timeout=1)
+            except Exception:
+                pass
         # call() with no outstanding results
         if w.is_alive():
             c = w.call(7)
